@@ -244,7 +244,13 @@ func (r *recorder) record(c any, o Outcome) (violation bool) {
 				if js == nil {
 					js, _ = json.Marshal(c)
 				}
-				r.frag.Samples = append(r.frag.Samples, map[string]any{"case": json.RawMessage(js), "labels": o.Labels})
+				if len(js) > 20000 { // (huge cases: the evidence keeps the beginning, the size and a digest)
+					hd := fnv.New64a()
+					_, _ = hd.Write(js)
+					r.frag.Samples = append(r.frag.Samples, map[string]any{"case_truncated": string(js[:1500]) + " ...", "case_bytes": len(js), "case_fnv64a": fmt.Sprintf("%016x", hd.Sum64()), "labels": o.Labels})
+				} else {
+					r.frag.Samples = append(r.frag.Samples, map[string]any{"case": json.RawMessage(js), "labels": o.Labels})
+				}
 			}
 		}
 	}
